@@ -195,4 +195,21 @@ def utf8 (cps : List Nat) : Bytes := cps.flatMap utf8Char
 def childReport (ran : Nat) (fails errs : List (List Nat)) : Bytes :=
   encodeReport ran (fails.map (fun n => utf8 (squash n))) (errs.map (fun n => utf8 (squash n)))
 
+/-! ### the child's stdout: keep-alive lines of dots (runner.py `_is_dots`, the deferred / keep-alive collectors) -/
+
+/-- `_is_dots` (runner.py): the whole line is `\.+(\r\n?|\n)` — one or more dots and a line end -/
+def isDotsLine (ln : Bytes) : Bool :=
+  let rest := ln.dropWhile (· == 46)
+  ln.head? == some 46 && (rest == [13, 10] || rest == [13] || rest == [10])
+
+/-- the lines of a child's stdout as `readline()` delivers them: cut after every `\n`, the unterminated
+rest (if any) last -/
+def stdoutLines (bs : Bytes) : List Bytes :=
+  let r := splitLines bs
+  r.1.map (· ++ [10]) ++ (if r.2.isEmpty then [] else [r.2])
+
+/-- what the deferred and the keep-alive collectors keep of a child's stdout: every line that is not a
+keep-alive line of dots -/
+def keptLines (bs : Bytes) : List Bytes := (stdoutLines bs).filter (fun l => !isDotsLine l)
+
 end Ztr.Channel
